@@ -233,7 +233,7 @@ def run_files(spec, rec, lib):
     C, M = lib.common, lib.metadata_construction
     d = spec["scratch"]
     for i in range(spec["count"]):
-        base = os.path.join(d, "key%d" % i)
+        base = os.path.join(d, ["key%d", "signer.%d", "5.root.%d", "a.b.c%d", "key%d.pri", "k e y %d", "cl\u00e9%d", ".hidden%d", "signer.v%d.json"][i % 9] % i)
         # the target names may already exist (older key files of other sizes / formats, e.g. a hex-encoded key)
         pre = ["none", "longer_hex", "shorter", "same_size", "much_longer"][i % 5]
         if pre != "none":
@@ -263,6 +263,20 @@ def run_files(spec, rec, lib):
         rec.count("keyfile_roundtrips")
         if not ok:
             viol(rec, "keyfiles/roundtrip-not-equivalent", "keys read back differ from keys written", case)
+        # the files are named exactly <name>.pri / <name>.pub, and an earlier pair written under another name is still its own
+        if not (os.path.exists(base + ".pri") and os.path.exists(base + ".pub")):
+            viol(rec, "keyfiles/not-written-under-name-dot-pri-pub", "key files are not at <name>.pri / <name>.pub", case)
+        prev = getattr(run_files, "_prev_pair", None)
+        if prev is not None:
+            pbase, ppriv = prev
+            try:
+                p3, _q3 = C.keyfiles_to_keys(pbase)
+                same = C.PrivateKey.is_equivalent_to(ppriv, p3)
+            except Exception:
+                same = False
+            if not same:
+                viol(rec, "keyfiles/earlier-pair-clobbered-by-later-name", "writing keys under another name changed what an earlier name loads", case)
+        run_files._prev_pair = (base, priv)
         # fresh keys differ from each other
         if i > 0 and pb == getattr(run_files, "_prev", None):
             viol(rec, "keyfiles/same-key-twice", "two generated keys are identical", case)
